@@ -52,3 +52,4 @@ def run(ctx):
     OW.rule_iterators(ctx)
     OW.rule_global_state(ctx, [q for q, _ in ENTRIES])
     OW.rule_set_order(ctx, [q for q, _ in ENTRIES])
+    OW.rule_field_owner(ctx)
